@@ -9,7 +9,18 @@ cp -r /repo/. "$scratch/"
 cd "$scratch"
 run_demo() { (cd "$scratch" && PBR_VERSION=0.0.0 PYTHONPATH="$scratch" PYTHONDONTWRITEBYTECODE=1 timeout 300 /venv/bin/python "$src/demo.py" >/dev/null 2>&1; echo $?); }
 demo_clean=$(run_demo)
-if ! git apply "$src/patch.diff" 2>/dev/null; then echo "RESULT {\"applies\": false}"; rm -rf "$scratch"; exit 3; fi
+if ! git apply "$src/patch.diff" 2>/dev/null; then
+  # the patch was written against an earlier HEAD of /repo (before a later fix: commit): merge it
+  if git apply --3way "$src/patch.diff" >/dev/null 2>&1; then
+    git reset -q 2>/dev/null
+  else
+    # last resort: evaluate the change on the commit it was written for (547f47a, before fix 03e1a8d)
+    git checkout -q -- . 2>/dev/null; git checkout -q 547f47a -- cgsmiles 2>/dev/null
+    demo_clean=$(run_demo)
+    if ! git apply "$src/patch.diff" 2>/dev/null; then echo "RESULT {\"applies\": false}"; rm -rf "$scratch"; exit 3; fi
+    echo "note: patch applied on its base commit 547f47a"
+  fi
+fi
 tests=$(PBR_VERSION=0.0.0 /venv/bin/python -m pytest -q -p no:cacheprovider 2>&1 | tail -1)
 demo_mut=$(run_demo)
 echo "demo clean exit=$demo_clean, with change exit=$demo_mut; tests: $tests"
